@@ -229,6 +229,11 @@ func ReadWsPayload(r *bufio.Reader) ([]byte, error) {
 		h.MaskKey = bele.BeUint32(buf)
 	}
 
+	// 对端可以在头部填入任意的64位长度，不能直接按这个长度申请内存
+	if h.PayloadLength > wsMaxPayloadLength {
+		return nil, fmt.Errorf("header error: payload length too large. length=%d", h.PayloadLength)
+	}
+
 	payload := make([]byte, h.PayloadLength)
 	_, err = io.ReadFull(r, payload)
 	if err != nil {
@@ -243,6 +248,9 @@ func ReadWsPayload(r *bufio.Reader) ([]byte, error) {
 
 	return payload, nil
 }
+
+// wsMaxPayloadLength 接收websocket帧时，允许的最大负载长度
+const wsMaxPayloadLength = 16 * 1024 * 1024
 
 func cipher(payload []byte, mask []byte, offset int) {
 	n := len(payload)
